@@ -55,8 +55,8 @@ def compiled_marks(c):
 
 
 def check(acc, prog, sseed, lseed, mode, name, sample=False):
-    style = Style(random.Random(sseed), 0.4) if mode != 1 else None
-    layout = random.Random(lseed) if mode != 2 else None
+    style = Style(random.Random(sseed), 0.4) if mode not in (1, 3) else None
+    layout = "dense" if mode == 3 else random.Random(lseed) if mode != 2 else None  # 3: the whole program on one line
     r = print_program(prog, style, layout)
     inp = {"name": name, "prog": prog, "style_seed": sseed, "layout_seed": lseed, "mode": mode, "text": r.text}
     acc.announce(name, {"text": r.text})
@@ -169,7 +169,7 @@ def run_shard(shard, acc):
         # the same mark written at several places (identical literal text when no style varies the spelling)
         prog2 = with_repeated_literals(prog, rnd)
         acc.count("programs_with_repeated_literals")
-        for mode in (1, 0):
+        for mode in (1, 0, 3):
             check(acc, prog2, rnd.randrange(1 << 40), rnd.randrange(1 << 40), mode, name + ":repeated")
 
 
